@@ -75,6 +75,27 @@ def family(rng, alpha, n, L, shape, psub, pindel):
         out = [mutate(rng, ca, alpha, psub * 0.2, 0.0) for _ in range(na)] + [mutate(rng, cb, alpha, psub * 0.2, 0.0) for _ in range(n - na)]
         rng.shuffle(out)
         return out
+    if shape == 'haplotypes':
+        # a few variants of one sequence (wild type, edit set X, edit set Y, X+Y), many exact copies of each:
+        # the k-means centre sits in the middle of a "square" and mirrored start points are exactly equidistant,
+        # so decisions hang on the last bit of a floating-point sum
+        def edit(s, pos):
+            b = list(s)
+            for q in pos:
+                b[q] = rng.choice([c for c in alpha if c != b[q]])
+            return ''.join(b)
+        Lh = len(anc)
+        pos = rng.sample(range(Lh), min(Lh, rng.randint(2, 12)))
+        X, Y = pos[:len(pos) // 2], pos[len(pos) // 2:]
+        vs = [anc, edit(anc, X), edit(anc, Y)]
+        vs.append(''.join(vs[1][q] if q in X else vs[2][q] for q in range(Lh)))
+        vs = vs[:rng.choice([2, 3, 4, 4, 4])]
+        out = []
+        for k in range(len(vs)):
+            out += [vs[k]] * (n // len(vs) + (1 if k < n % len(vs) else 0))
+        if rng.random() < 0.3:
+            rng.shuffle(out)
+        return out
     if shape == 'balanced':
         pool = [anc]
         while len(pool) < n:
@@ -153,7 +174,7 @@ def gen_workload(rng, profile=None, kinds=('dna', 'rna', 'protein'), weights=Non
         n, L = rng.randint(10, 60), rng.randint(20, 260)
     elif profile == 'kmeans':
         n, L = rng.randint(100, 240), rng.randint(12, 70)
-        shape = rng.choice(['clusters', 'balanced', 'caterpillar', 'star', 'twoclusters', 'twoclusters'])
+        shape = rng.choice(['clusters', 'balanced', 'caterpillar', 'star', 'twoclusters', 'twoclusters', 'haplotypes', 'haplotypes'])
     elif profile == 'hirsch':
         n, L = rng.randint(2, 5), rng.randint(500, 1500)
         psub = rng.choice([0.02, 0.1, 0.25]); pindel = rng.choice([0.0, 0.01, 0.03])
@@ -209,8 +230,13 @@ def gen_workload(rng, profile=None, kinds=('dna', 'rna', 'protein'), weights=Non
         for _ in range(rng.randint(1, max(1, n // 2))):
             seqs[rng.randrange(n)] = seqs[rng.randrange(n)]
     amb = rng.choice([0, 0, 0, 0.01, 0.03])
-    if amb:
+    if amb and shape != 'haplotypes':        # (exact copies stay exact)
         seqs = [sprinkle(rng, s, DNA_AMBIG if kind != 'protein' else PROT_AMBIG, amb) for s in seqs]
+    foreign = rng.choice([0, 0, 0, 0, 0, 0.01, 0.04])
+    if foreign and shape != 'haplotypes':
+        # letters kalign accepts although they are outside its alphabets (X in nucleotides; J, O, U in protein):
+        # they get an internal class of their own but must come back unchanged in every output
+        seqs = [sprinkle(rng, s, 'X' if kind != 'protein' else 'JOU', foreign) for s in seqs]
     case_mode = rng.choice([0, 0, 0, 1, 2])
     seqs = [recase(rng, s, case_mode) for s in seqs]
     names = gen_names(rng, n)
